@@ -147,10 +147,14 @@ def run_tlc(module, cfg_text, wd, workers=None, timeout=900, env_extra=None, sim
     return res
 
 
+def tlc_tail(res, n=60):
+    """Last lines of TLC's output without the exported behaviours (for error reports)."""
+    return "\n".join([l for l in res["out"].splitlines() if not l.startswith('<<"REPLAY"')][-n:])
+
+
 def tlc_must_pass(res, what):
     if res.get("fatal") or not res["ok"]:
-        tail = "\n".join(res["out"].splitlines()[-40:])
-        log(tail)
+        log(tlc_tail(res, 40))
         raise ToolError(f"TLC did not complete cleanly on {what} (specification-level problem, not a code violation)")
 
 
